@@ -608,7 +608,10 @@ class APIConnection:
         This part of the process establishes the socket connection but
         does not initialize the frame helper or send the hello message.
         """
-        if self.connection_state is not CONNECTION_STATE_INITIALIZED:
+        if (
+            self.connection_state is not CONNECTION_STATE_INITIALIZED
+            or self._start_connect_future is not None
+        ):
             raise RuntimeError(
                 "Connection can only be used once, connection is not in init state"
             )
